@@ -533,7 +533,7 @@ func filterpath(peer *peer, path, old *table.Path) *table.Path {
 		if ignore {
 			if !path.IsWithdraw && old != nil {
 				oldSource := old.GetSource()
-				if old.IsLocal() || oldSource.Address.String() != peer.ID() && oldSource.AS != peer.AS() {
+				if old.IsLocal() || oldSource.Address.String() != peer.ID() && (oldSource.AS != peer.AS() || oldSource.RouteReflectorClient) {
 					// In this case, we suppose this peer has the same prefix
 					// received from another iBGP peer.
 					// So we withdraw the old best which was injected locally
@@ -542,6 +542,8 @@ func filterpath(peer *peer, path, old *table.Path) *table.Path {
 					// Also, we withdraw the eBGP route which is the old best.
 					// When we got the new best from iBGP, we don't advertise
 					// the new best and need to withdraw the old best.
+					// The same goes for an old best that came from a route
+					// reflector client: it was reflected to this peer.
 					return old.Clone(true)
 				}
 			}
